@@ -64,6 +64,9 @@ pub struct Agg {
     pub states_checked: u64,
     pub runs_with_states: u64,
     pub distinct_inputs: BTreeSet<u64>,
+    /// (input, output) fingerprints of runs that got past the invariant
+    /// filter / reached simplify (fallback measure without the hook build)
+    pub deep_pairs: BTreeSet<(u64, u64)>,
 }
 
 fn bump(m: &mut BTreeMap<String, u64>, k: &str) {
@@ -120,6 +123,10 @@ impl Agg {
         bump(&mut self.by_repr, spec.repr.name());
         bump(&mut self.by_op, spec.op.name());
         self.distinct_inputs.insert(rec.input_fp);
+        let shallow = spec.op == Op::IsEuclidean && rec.outcome == "no" && (rec.detail == crate::plan::REASON_INVARIANTS || rec.detail == crate::plan::REASON_NO_COVER);
+        if !shallow {
+            self.deep_pairs.insert((rec.input_fp, rec.out_fp));
+        }
         // perturbation census: what was actually injected in this run
         if spec.k0 == 0 && spec.k1 == 0 && spec.steer.is_empty() {
             bump(&mut self.perturb, "control_fixed_keys");
